@@ -250,6 +250,7 @@ HopTo(j, hk) ==
   CASE hk = "ref"   -> [ref |-> ResRef(j, FragNone)]
     [] hk = "dref"  -> [dynamicRef |-> ResRef(j, FragNone)]
     [] hk = "allOf" -> [allOf |-> <<[ref |-> ResRef(j, FragNone)]>>]
+    [] hk = "inner" -> [ref |-> ResRef(j, FragPtr(<<SegN("defs", "e")>>))]   \* into the interior: the root is never entered
 DyFinal(fin) ==
   CASE fin.k = "frag" -> [dynamicRef |-> LocalRef(FragName("n"))]
     [] fin.k = "ptr"  -> [dynamicRef |-> LocalRef(FragPtr(<<SegN("defs", "t")>>))]
@@ -265,7 +266,8 @@ DyAct(i, chain, hk, fin) ==
      ELSE HopTo(chain[pos + 1], hk)
 DyRes(i, kinds, chain, hk, fin, withId) ==
   (IF withId THEN [id |-> IdOf(RelRef(<<RN[i]>>))] ELSE <<>>)
-  @@ [defs |-> [t |-> TNode(kinds[i + 1], i)]] @@ DyAct(i, chain, hk, fin)
+  @@ (IF hk = "inner" THEN [defs |-> [t |-> TNode(kinds[i + 1], i), e |-> DyAct(i, chain, hk, fin)]]
+      ELSE [defs |-> [t |-> TNode(kinds[i + 1], i)]] @@ DyAct(i, chain, hk, fin))
 DyRootURI == URI("http", "h1", TRUE, <<"root.json">>)
 DyEmbedded(kinds, chain, hk, fin) ==
   [docs |-> <<[uri |-> DyRootURI,
@@ -277,7 +279,7 @@ DyRemote(kinds, chain, hk, fin) ==
              \o [j \in 1..K |-> [uri |-> URI("http", "h1", TRUE, <<RN[j]>>), s |-> DyRes(j, kinds, chain, hk, fin, FALSE)]]]
 DyCases(z) ==
   UNION {{DyEmbedded(kinds, chain, hk, fin), DyRemote(kinds, chain, hk, fin)} :
-           kinds \in [1..(K + 1) -> DyKinds], chain \in DyChains, hk \in {"ref", "dref", "allOf"}, fin \in DyFinals}
+           kinds \in [1..(K + 1) -> DyKinds], chain \in DyChains, hk \in {"ref", "dref", "allOf", "inner"}, fin \in DyFinals}
 DyVals == {Num(Mark[i]) : i \in 1..(K + 1)} \cup {Str("a")}
 
 \* ------------------------------------------------------------ selection
